@@ -6,16 +6,22 @@ import simgen
 HDR = "From V Require Import Model.Num Model.Status Model.Sim Model.SimLoop Gen.StatusC Model.SimCases.\nOpen Scope Z_scope.\n"
 
 
-def run_batch(scs, name="sim", per_file=25, observe="all"):
-    """returns (codes, impl_outs)"""
+def run_batch(scs, name="sim", per_file=25, observe="all", hyp=False):
+    """returns (codes, impl_outs); with hyp=True also the side conditions of the whole-run theorem (scen_hyp) as a third value"""
     impl_in = [simgen.to_impl(s) for s in scs]
     outs = run_impl_parallel("simlib", [{"scenarios": ch, "observe": observe} for ch in chunked(impl_in, 40)], timeout=3600)
     impl = [r for o in outs for r in o["out"]]
     terms = [simgen.to_coq(s, io)[0] for s, io in zip(scs, impl)]
-    chunks = ["Definition cases : list scen := %s.\nEval vm_compute in (map scen_cmp cases).\n" % cl(ch) for ch in chunked(terms, per_file)]
-    codes = []
+    extra = "Eval vm_compute in (map scen_hyp cases).\n" if hyp else ""
+    chunks = ["Definition cases : list scen := %s.\nEval vm_compute in (map scen_cmp cases).\n%s" % (cl(ch), extra) for ch in chunked(terms, per_file)]
+    codes, hyps = [], []
     for o in coq_eval(name, HDR, chunks, timeout=1800):
-        codes += parse_nlist(parse_evals(o)[0])
+        ev = parse_evals(o)
+        codes += parse_nlist(ev[0])
+        if hyp:
+            hyps += parse_nlist(ev[1])
+    if hyp:
+        return codes, impl, hyps
     return codes, impl
 
 
